@@ -269,4 +269,29 @@ mod proofs {
             kani::assert(count(|e| matches!(e, Ev::DropCounter(_))) == 0, "the guest never drops the handle it gave away");
         }
     }
+
+    /// `into_inner` moves the Rust value out of the exported resource: the value must then be destroyed exactly once, by
+    /// its new owner, and NOT a second time when the (now empty) resource is dropped by the host.
+    #[kani::proof]
+    pub fn c07_export_into_inner_moves_value_out_destroyed_once() {
+        let h = any_handle();
+        let v: u32 = kani::any();
+        unsafe {
+            ANSWER = h;
+            let r = exports::verif::res::exp::_export_give_cabi::<Impl>(v as i32);
+            kani::assert(r as u32 == h && COUNTER_DROPS == 0, "a new exported resource");
+            let rep = REP_OF.1 as *mut u8;
+            // the guest gets its own resource back as an owned handle and takes the value out of it
+            let owner = Counter::from_handle(h);
+            let value: MyCounter = owner.into_inner::<MyCounter>();
+            kani::assert(value.v == v, "into_inner hands out the Rust value behind the handle");
+            kani::assert(count(|e| *e == Ev::DropCounter(h)) == 1, "consuming the owned handle drops it exactly once");
+            kani::assert(COUNTER_DROPS == 0, "the value is alive in its new owner");
+            // the host reacts to the handle drop by calling the destructor export
+            Counter::dtor::<MyCounter>(rep);
+            kani::assert(COUNTER_DROPS == 0, "the destructor must not destroy a value that was moved out");
+            drop(value);
+            kani::assert(COUNTER_DROPS == 1, "the Rust value is destroyed exactly once");
+        }
+    }
 }
